@@ -534,6 +534,10 @@ def classify(e, toks, cols, bycol, body, ctxt, full, lang):
                 b -= 1
             if b >= 0 and toks[b] == ",":
                 return "parentheses-removed-between-comma-and-assignment"
+    if ctxt == "stmt":
+        surv0 = [i for i in range(len(toks)) if cols[i] in bycol]
+        if len(surv0) >= 2 and IDENT.match(toks[surv0[0]]) and toks[surv0[1]] == ",":
+            return "stmt-begins-with-identifier-comma"
     # shapes of the generating tree ------------------------------------------------------------------------
     for x, _ in nodes:
         if x.get("sizeof"):
@@ -553,12 +557,8 @@ def classify(e, toks, cols, bycol, body, ctxt, full, lang):
     for x, _ in nodes:
         if x["s"] == "(" and not x.get("cast") and len(x["k"]) == 2:
             c = x["k"][0]
-            if c.get("sizeof"):
-                return "call-of-parenthesised-sizeof"
             if c.get("fix") == "post":
                 return "call-of-postfix-incdec-result"
-            if c["s"] == "(" and not c.get("cast") and toks[x["i"] - 1] == ")" and toks[c["i"] + 0] == "(" and full:
-                return "call-of-parenthesised-call-result"
         if x.get("arrow") and x["k"][0]["s"] == "(" and not x["k"][0].get("cast") and len(x["k"][0]["k"]) == 2:
             arg = x["k"][0]["k"][1]
             if arg["s"] == "&" and arg.get("fix") == "pre" and not arg["k"][0]["k"] and cols[arg["i"]] not in bycol:
@@ -571,11 +571,9 @@ def classify(e, toks, cols, bycol, body, ctxt, full, lang):
                 return "cpp-binary-star-amp-before-assignment-taken-as-declaration"
     if ctxt == "stmt":
         surv = [i for i in range(len(toks)) if cols[i] in bycol]
-        if len(surv) >= 2 and IDENT.match(toks[surv[0]]) and toks[surv[1]] == ",":
-            return "stmt-begins-with-identifier-comma"
         if len(surv) >= 2 and IDENT.match(toks[surv[0]]) and toks[surv[1]] in ("*", "&"):
             return "stmt-begins-like-pointer-or-reference-declaration"
-        if len(toks) >= 3 and IDENT.match(toks[0]) and toks[1] == "(" and toks[2] == "*":
+        if len(surv) >= 3 and IDENT.match(toks[surv[0]]) and toks[surv[1]] == "(" and toks[surv[2]] == "*":
             return "stmt-begins-like-function-pointer-declaration"
     return None
 
